@@ -162,13 +162,16 @@ def run_property(pid: str, tier: str, repo: str, rules_fn: Callable[[Ctx], None]
     for o in obs:
         counts[o.rule] = counts.get(o.rule, 0) + 1
     failing_rules = {o.rule for o in obs if not o.ok}
-    for rid, floor in ctx.floors.items():
-        # the floor guards against VACUOUS passes; a rule that already reports a failing instance is not vacuous
-        if rid.startswith(pid + ".") and counts.get(rid, 0) < floor and rid not in failing_rules:
-            raise AnalysisError(f"rule {rid} matched {counts.get(rid, 0)} instance(s), fewer than the "
-                                f"{floor} confirmed by hand - anchors moved; the rule would pass vacuously")
     known = load_known()
     known_keys = {(k["rule"], k["key"]): k for k in known.get("known", []) if k.get("property") == pid}  # type: ignore[union-attr]
+    unlisted_failure = any((not o.ok) and (o.rule, o.key) not in known_keys for o in obs)
+    for rid, floor in ctx.floors.items():
+        # the floor guards against VACUOUS passes: it matters only when the property would otherwise be reported as holding.
+        # When some obligation of the property already fails (a removed fence also removes instances of sibling rules) the
+        # violation is the verdict, not an analysis error.
+        if rid.startswith(pid + ".") and counts.get(rid, 0) < floor and rid not in failing_rules and not unlisted_failure:
+            raise AnalysisError(f"rule {rid} matched {counts.get(rid, 0)} instance(s), fewer than the "
+                                f"{floor} confirmed by hand - anchors moved; the rule would pass vacuously")
     failing = [o for o in obs if not o.ok]
     new_viol: List[Ob] = []
     out_lines: List[str] = []
